@@ -116,7 +116,21 @@ def search(rec, ctx):
         elif r < 0.6:
             g = FGen(rnd)
             k, s = "fstring", g.statement()
-        elif r < 0.8 and corp:
+        elif r < 0.64:
+            # f-strings whose pieces span lines (a field on a later line, text after it) and debug fields right after them:
+            # what a piece leaves behind in the tokenizer's line bookkeeping shows in the '=' text of the next statements
+            from ..gen import mltok
+
+            if rnd.random() < 0.5:
+                body = "\n".join(rnd.choice(["usage:", "  prog [options]", "{name}!", "see {also} too", "", "  {x:>4} |"]) for _ in range(rnd.randrange(2, 6)))
+                k, s = "fstring", rnd.choice(["banner = ", "print(", "t = 1, "]) + 'f"""' + body + '"""' + rnd.choice(["\n", ")\n", "\n"])
+                if s.startswith("print(") and not s.endswith(")\n"):
+                    s = s[:-1] + ")\n"
+                elif not s.startswith("print(") and s.endswith(")\n"):
+                    s = s[:-2] + "\n"
+            else:
+                k, s = "fstring", mltok.debug_statement(rnd)[0] + "\n"
+        elif r < 0.82 and corp:
             k, s = "corpus", corp[rnd.randrange(len(corp))]
         else:
             k, s = "python", PyGen(rnd).stmt(0, "")
